@@ -141,6 +141,145 @@ theorem index_spec (t : Table) (x : Pid) (i : Nat) (h : t.index? x = some i) :
     exact ⟨hp, i, hi, rfl, fun j hj => by simpa using hbefore j hj⟩
   rw [this]
 
+def sumP (t : Table) (l : List Pid) : Nat := (l.map t.power).foldl (· + ·) 0
+
+theorem sumP_append (t : Table) (a b : List Pid) : sumP t (a ++ b) = sumP t a + sumP t b := by
+  unfold sumP
+  rw [List.map_append, List.foldl_append, foldl_add_init]
+
+theorem sumP_single (t : Table) (x : Pid) : sumP t [x] = t.power x := by simp [sumP]
+theorem sumP_nil (t : Table) : sumP t [] = 0 := rfl
+theorem sumP_cons (t : Table) (x : Pid) (l : List Pid) : sumP t (x :: l) = t.power x + sumP t l := by
+  rw [show x :: l = [x] ++ l from rfl, sumP_append, sumP_single]
+
+theorem upsert_find_same (l : List Support) (s : Support) :
+    (upsertSupport l s).find? (fun x => x.chain == s.chain) = some s := by
+  induction l with
+  | nil => simp [upsertSupport]
+  | cons a as ih =>
+    unfold upsertSupport
+    split
+    · simp
+    · rename_i h
+      rw [List.find?_cons]
+      simp only [h]
+      exact ih
+
+theorem upsert_find_other (l : List Support) (s : Support) (c : Chain) (hc : c ≠ s.chain) :
+    (upsertSupport l s).find? (fun x => x.chain == c) = l.find? (fun x => x.chain == c) := by
+  induction l with
+  | nil =>
+    simp only [upsertSupport, List.find?_cons, List.find?_nil]
+    have : (s.chain == c) = false := by simpa using fun h => hc h.symm
+    simp [this]
+  | cons a as ih =>
+    unfold upsertSupport
+    split
+    · rename_i h
+      have ha : a.chain = s.chain := by simpa using h
+      simp only [List.find?_cons]
+      have h1 : (s.chain == c) = false := by simpa using fun h => hc h.symm
+      have h2 : (a.chain == c) = false := by rw [ha]; exact h1
+      simp [h1, h2]
+    · simp only [List.find?_cons]
+      split
+      · rfl
+      · exact ih
+
+/-- if every element of a nodup list `a` is in `b` then its power sum is at most `b`'s -/
+theorem sumP_le_of_subset (t : Table) (a b : List Pid) (ha : a.Nodup) (hsub : ∀ x ∈ a, x ∈ b) : sumP t a ≤ sumP t b := by
+  induction a generalizing b with
+  | nil => simp [sumP]
+  | cons x xs ih =>
+    have hx : x ∈ b := hsub x List.mem_cons_self
+    obtain ⟨b1, b2, rfl⟩ := List.append_of_mem hx
+    have hnd := List.nodup_cons.1 ha
+    have := ih (b1 ++ b2) hnd.2 (by
+      intro y hy
+      have hyb := hsub y (List.mem_cons_of_mem _ hy)
+      simp only [List.mem_append, List.mem_cons] at hyb ⊢
+      rcases hyb with h | h | h
+      · exact Or.inl h
+      · subst h; exact absurd hy hnd.1
+      · exact Or.inr h)
+    rw [sumP_cons, sumP_append, sumP_cons]
+    rw [sumP_append] at this
+    omega
+
+
+theorem find_of_mem_nodup (l : List Support) (hnd : (l.map (·.chain)).Nodup) (sup : Support) (hm : sup ∈ l) :
+    l.find? (fun x => x.chain == sup.chain) = some sup := by
+  induction l with
+  | nil => simp at hm
+  | cons a as ih =>
+    simp only [List.map_cons, List.nodup_cons] at hnd
+    rcases List.mem_cons.1 hm with rfl | hm
+    · simp
+    · have hne : a.chain ≠ sup.chain := by
+        intro heq
+        exact hnd.1 (heq ▸ List.mem_map.2 ⟨sup, hm, rfl⟩)
+      rw [List.find?_cons]
+      have : (a.chain == sup.chain) = false := by simpa using hne
+      simp only [this]
+      exact ih hnd.2 hm
+
+theorem upsert_mem_iff (l : List Support) (hnd : (l.map (·.chain)).Nodup) (s s' : Support) :
+    s' ∈ upsertSupport l s ↔ s' = s ∨ (s' ∈ l ∧ s'.chain ≠ s.chain) := by
+  induction l with
+  | nil => simp [upsertSupport]
+  | cons a as ih =>
+    simp only [List.map_cons, List.nodup_cons] at hnd
+    unfold upsertSupport
+    split
+    · rename_i h
+      have ha : a.chain = s.chain := by simpa using h
+      simp only [List.mem_cons]
+      constructor
+      · rintro (h | h)
+        · exact Or.inl h
+        · right
+          refine ⟨Or.inr h, ?_⟩
+          intro heq
+          exact hnd.1 (by rw [ha, ← heq]; exact List.mem_map.2 ⟨s', h, rfl⟩)
+      · rintro (h | ⟨h | h, hne⟩)
+        · exact Or.inl h
+        · subst h; exact absurd ha hne
+        · exact Or.inr h
+    · rename_i h
+      have ha : a.chain ≠ s.chain := by simpa using h
+      simp only [List.mem_cons, ih hnd.2]
+      constructor
+      · rintro (h | h | ⟨h, hne⟩)
+        · subst h; exact Or.inr ⟨Or.inl rfl, ha⟩
+        · exact Or.inl h
+        · exact Or.inr ⟨Or.inr h, hne⟩
+      · rintro (h | ⟨h | h, hne⟩)
+        · exact Or.inr (Or.inl h)
+        · exact Or.inl h
+        · exact Or.inr (Or.inr ⟨h, hne⟩)
+
+theorem upsert_chains_nodup (l : List Support) (hnd : (l.map (·.chain)).Nodup) (s : Support) :
+    ((upsertSupport l s).map (·.chain)).Nodup := by
+  induction l with
+  | nil => simp [upsertSupport]
+  | cons a as ih =>
+    simp only [List.map_cons, List.nodup_cons] at hnd
+    unfold upsertSupport
+    split
+    · rename_i h
+      have ha : a.chain = s.chain := by simpa using h
+      simp only [List.map_cons, List.nodup_cons]
+      exact ⟨ha ▸ hnd.1, hnd.2⟩
+    · rename_i h
+      have ha : a.chain ≠ s.chain := by simpa using h
+      simp only [List.map_cons, List.nodup_cons]
+      refine ⟨?_, ih hnd.2⟩
+      intro hm
+      obtain ⟨x, hx, hxc⟩ := List.mem_map.1 hm
+      rcases (upsert_mem_iff as hnd.2 s x).1 hx with rfl | ⟨hx', _⟩
+      · exact ha hxc.symm
+      · exact hnd.1 (hxc ▸ List.mem_map.2 ⟨x, hx', rfl⟩)
+
 /-- well-formedness of a single-vote tally: stored signers are distinct senders with positive power -/
 structure TallyWF (V : Pid → Chain → Prop) (t : Table) (q : Tally) : Prop where
   nodup : ∀ sup ∈ q.support, sup.signers.Nodup
@@ -148,10 +287,17 @@ structure TallyWF (V : Pid → Chain → Prop) (t : Table) (q : Tally) : Prop wh
   pos : ∀ x ∈ q.senders, 0 < t.power x
   /-- provenance: a stored signature of `x` under chain `c` comes from a delivered vote of `x` for `c` -/
   voted : ∀ sup ∈ q.support, ∀ x ∈ sup.signers, V x sup.chain
+  /-- power accounting -/
+  sendersNodup : q.senders.Nodup
+  sendersPow : q.sendersPower = sumP t q.senders
+  supPow : ∀ sup ∈ q.support, sup.power = sumP t sup.signers
+  /-- every sender is filed under exactly one chain -/
+  covered : ∀ x ∈ q.senders, ∃ sup ∈ q.support, x ∈ sup.signers
+  chains : (q.support.map (·.chain)).Nodup
 
 
 theorem TallyWF_empty (V : Pid → Chain → Prop) (t : Table) : TallyWF V t {} :=
-  ⟨by simp, by simp, by simp, by simp⟩
+  ⟨by simp, by simp, by simp, by simp, by simp, rfl, by simp, by simp, by simp⟩
 
 theorem upsertSupport_mem (l : List Support) (s s' : Support) (h : s' ∈ upsertSupport l s) : s' = s ∨ s' ∈ l := by
   induction l with
@@ -178,12 +324,15 @@ theorem findSupport_chain (q : Tally) (c : Chain) (s : Support) (h : q.findSuppo
 theorem cand_signers {V : Pid → Chain → Prop} (t : Table) (q : Tally) (c : Chain) (hwf : TallyWF V t q) :
     ((q.findSupport c).getD { chain := c, power := 0, signers := [], strong := false }).signers.Nodup ∧
     (∀ x ∈ ((q.findSupport c).getD { chain := c, power := 0, signers := [], strong := false }).signers, x ∈ q.senders) ∧
-    (∀ x ∈ ((q.findSupport c).getD { chain := c, power := 0, signers := [], strong := false }).signers, V x c) := by
+    (∀ x ∈ ((q.findSupport c).getD { chain := c, power := 0, signers := [], strong := false }).signers, V x c) ∧
+    ((q.findSupport c).getD { chain := c, power := 0, signers := [], strong := false }).power =
+      sumP t ((q.findSupport c).getD { chain := c, power := 0, signers := [], strong := false }).signers := by
   cases hf : q.findSupport c with
-  | none => simp
+  | none => simp [sumP]
   | some sup =>
     simp only [Option.getD_some]
-    refine ⟨hwf.nodup sup (findSupport_mem q c sup hf), hwf.sub sup (findSupport_mem q c sup hf), fun x hx => ?_⟩
+    refine ⟨hwf.nodup sup (findSupport_mem q c sup hf), hwf.sub sup (findSupport_mem q c sup hf), fun x hx => ?_,
+      hwf.supPow sup (findSupport_mem q c sup hf)⟩
     have := hwf.voted sup (findSupport_mem q c sup hf) x hx
     rwa [findSupport_chain q c sup hf] at this
 
@@ -204,7 +353,12 @@ theorem receive_wf {V : Pid → Chain → Prop} (t : Table) (q q' : Tally) (send
       have hcand : ∀ x ∈ ((q.findSupport c).getD { chain := c, power := 0, signers := [], strong := false }).signers,
           x ∈ q.senders ∧ True := fun x hx => ⟨hc.2.1 x hx, trivial⟩
       have hcandnd := hc.1
-      refine ⟨?_, ?_, ?_, ?_⟩
+      -- membership in the updated support list
+      have hmem := fun s' => upsert_mem_iff q.support hwf.chains
+        { chain := c, power := ((q.findSupport c).getD { chain := c, power := 0, signers := [], strong := false }).power + t.power sender,
+          signers := ((q.findSupport c).getD { chain := c, power := 0, signers := [], strong := false }).signers ++ [sender],
+          strong := strongQ t (((q.findSupport c).getD { chain := c, power := 0, signers := [], strong := false }).power + t.power sender) } s'
+      refine ⟨?_, ?_, ?_, ?_, ?_, ?_, ?_, ?_, ?_⟩
       · intro sup hsup
         rcases upsertSupport_mem _ _ _ hsup with rfl | hsup
         · simp only [if_true]
@@ -231,9 +385,39 @@ theorem receive_wf {V : Pid → Chain → Prop} (t : Table) (q q' : Tally) (send
         rcases upsertSupport_mem _ _ _ hsup with rfl | hsup
         · simp only [if_true, List.mem_append, List.mem_singleton] at hx
           rcases hx with hx | rfl
-          · exact hc.2.2 x hx
+          · exact hc.2.2.1 x hx
           · exact hv
         · exact hwf.voted sup hsup x hx
+      · -- senders nodup
+        rw [List.nodup_append]
+        exact ⟨hwf.sendersNodup, by simp, fun a ha b hb => by simp at hb; subst hb; intro heq; subst heq; exact hns' ha⟩
+      · -- senders power
+        show q.sendersPower + t.power sender = sumP t (q.senders ++ [sender])
+        rw [sumP_append, sumP_single, hwf.sendersPow]
+      · -- support power
+        intro sup hsup
+        rcases upsertSupport_mem _ _ _ hsup with rfl | hsup
+        · simp only [if_true]
+          rw [sumP_append, sumP_single]
+          exact congrArg (· + t.power sender) hc.2.2.2
+        · exact hwf.supPow sup hsup
+      · -- covered
+        intro x hx
+        simp only [List.mem_append, List.mem_singleton] at hx
+        rcases hx with hx | rfl
+        · obtain ⟨sup, hsup, hxs⟩ := hwf.covered x hx
+          by_cases hch : sup.chain = c
+          · -- `sup` is the entry being replaced
+            have hfs : q.findSupport c = some sup := by
+              have := find_of_mem_nodup q.support hwf.chains sup hsup
+              rw [hch] at this; exact this
+            refine ⟨_, (hmem _).2 (Or.inl rfl), ?_⟩
+            simp only [if_true, hfs, Option.getD_some, List.mem_append]
+            exact Or.inl hxs
+          · exact ⟨sup, (hmem sup).2 (Or.inr ⟨hsup, hch⟩), hxs⟩
+        · refine ⟨_, (hmem _).2 (Or.inl rfl), ?_⟩
+          simp
+      · exact upsert_chains_nodup q.support hwf.chains _
 
 /-- what C03 asks of a reported decision's justification -/
 structure DecisionOK (V : Pid → Chain → Prop) (t : Table) (d : Just) : Prop where
